@@ -255,20 +255,29 @@ class Ctx(object):
         for v in unlisted:
             groups.setdefault((v.get("trace_module"), v["action"], v["clause"], v.get("class", "")), []).append(v)
         replays = []
+        per_clause = {}
         for gk, vs in sorted(groups.items(), key=lambda kv: str(kv[0])):
             seen_tid = []
+            ck = (gk[2], gk[3])
             for v in vs:
                 if v["tid"] in seen_tid:
                     continue
-                seen_tid.append(v["tid"])
-                if len(seen_tid) > 3:
+                # at most 2 replays per (action, clause, class), 4 per (clause, class), 24 in total;
+                # every group is still listed in the summary below
+                if len(seen_tid) >= 2 or per_clause.get(ck, 0) >= 4 or len(replays) >= 24:
                     break
+                seen_tid.append(v["tid"])
+                per_clause[ck] = per_clause.get(ck, 0) + 1
                 path = self._write_replay(v, len(vs))
                 replays.append(path)
                 print("VIOLATION property=%s replay=%s" % (self.prop, path))
                 print("  clause=%s class=%s action=%s (%d event(s) in this group)%s"
                       % (v["clause"], v.get("class", ""), v["action"], len(vs),
                          (" note=" + str(v.get("note"))) if v.get("note") else ""))
+        if unlisted:
+            print("VIOLATION-SUMMARY property=%s: %d failing clause evaluation(s) in %d group(s): %s"
+                  % (self.prop, len(unlisted), len(groups),
+                     "; ".join("%s[%s]@%s x%d" % (k[2], k[3], k[1], len(v)) for k, v in sorted(groups.items(), key=lambda kv: -len(kv[1]))[:12])))
         self._write_evidence(level, len(unlisted), known_hit)
         shutil.rmtree(self.work, ignore_errors=True)
         if unlisted:
